@@ -374,7 +374,9 @@ func (s *Store) CopyTo(dstFile StoreFile, flushEvery int) (res *Store, err error
 			}
 			if flushEvery > 0 && numItems%flushEvery == 0 {
 				// Flush out some of the read items cached into memory
-				srcColl.EvictSomeItems()
+				if _, errCopyItem = srcColl.evictSomeItems(); errCopyItem != nil {
+					return false
+				}
 				// Flush none persisted items to disk
 				if errCopyItem = dstStore.Flush(); errCopyItem != nil {
 					return false
